@@ -1190,6 +1190,32 @@ def check_crh(rec, case):
                 return False
         return True
 
+    # levels exactly on the two regime boundaries of the mixed-phase formula, and a saturated profile
+    # built from the harness' own mixed-phase model (a reference built with typhon's own e_eq_mixed_mk
+    # would vanish together with a fault at those levels); gross deviations only
+    try:
+        from vt.models import atmosphere_model as am
+        Tb = np.array(T, dtype=float, copy=True, order="C")
+        flatb = Tb.reshape(-1)           # a view: Tb is C-contiguous
+        flatb[::3] = am.T_TRIPLE
+        flatb[1::3] = am.T_TRIPLE - am.BLEND_WIDTH
+        es_model = np.asarray(am.mixed_ld(flatb)[0], dtype=float).reshape(Tb.shape)
+        with np.errstate(all="ignore"):
+            qs_b = np.asarray(atm.water_vapor_pressure2specific_humidity(es_model, p_b), dtype=float)
+        if np.all(qs_b > 0) and np.all(qs_b < 1):
+            rec.count("crh.boundary_temperature_profiles")
+            oneb = crh(qs_b, Targ=_layout(Tb, lay))
+            if oneb.shape != want_shape or np.any(~(np.abs(oneb - 1) <= 1e-9)):
+                rec.violation("crh-saturated-not-one", case,
+                              {"why": "levels exactly at T_t and T_t - 23 K, saturated after the harness' "
+                                      "own mixed-phase model", "got": oneb.reshape(-1)[:4].tolist(), "want": 1.0,
+                               "tol": 1e-9})
+    except ContractBreach as exc:
+        rec.violation(exc.key, case, dict(exc.detail, lane=0))
+        return
+    except Exception as exc:
+        rec.violation(_exc_key(exc, "crh-exception"), case, dict(_exc_detail(exc), lane=0))
+        return
     try:
         try:
             one = crh(qs)
